@@ -616,7 +616,7 @@ def t2_tq(res, tier, broken):
     exe = C.cc_harness("wb_tq", ["wb_tq.c"], "san")
     rng = C.Rng(res.seed * 7919 + 7)
     if tier == "quick":
-        rounds, nops = (8, 800) if not broken else (40, 1500)
+        rounds, nops = (20, 1500) if not broken else (60, 3000)
     else:
         rounds, nops = 50, 20000
     hist, sizes = collections.Counter(), collections.Counter()
@@ -678,13 +678,19 @@ def t2_pool(res, tier, broken):
     hung = probe_priv_pop_wait(res, exe)
     rng = C.Rng(res.seed * 104729 + 77)
     if tier == "quick":
-        rounds, nops = (2, 350) if not broken else (10, 600)
+        rounds, nops = (4, 600) if not broken else (16, 1000)
     else:
         rounds, nops = 12, 3000
     hist, sizes = collections.Counter(), collections.Counter()
     nl = 0
     per_kind = {}
     stop = False
+    # is the generated table usable at all?  (the translator writes an empty table for a source shape it cannot read)
+    model_usable = all(compare(["pool", k], [exe, k], ["sel 1", "push 1 0", "pop 0", "remove 1"]) is None for k in KINDS)
+    if not model_usable:
+        res.violation("T0 pool table (tools/poolgen.py -> Gen/PoolEnds.lean) does not reproduce the simplest pool program; "
+                      "searching with the independent oracle only", {"correspondence": "T0 poolgen", "generated": res.cov.get("generated", {}).get("poolends")},
+                      no_input=True)
     for kind in KINDS:
         for r in range(rounds):
             lines = gen_pool_ops(rng, nops, kind, flags, hist, sizes, no_priv_wait=(kind in hung))
@@ -692,7 +698,7 @@ def t2_pool(res, tier, broken):
             per_kind[kind] = per_kind.get(kind, 0) + len(lines)
             if r == 0 and kind == "randws":
                 res.sample({"pool_ops_randws": lines[:12]})
-            d = compare(["pool", kind], [exe, kind], lines)
+            d = compare(["pool", kind], [exe, kind], lines) if model_usable else None
             if d is None:
                 if monitor(res, "T2 pool API %s" % kind, ["pool", kind], [exe, kind], lines, 0,
                            lambda ls, out, k=kind: pool_oracle(k, ls, out, flags), tier):
